@@ -390,6 +390,12 @@ class Engine(object):
         self.bounds[name] = (lo, hi)
         return SymFloat(r=v)
 
+    def fresh_dyadic(self, name, k, lo=None, hi=None):
+        """a double whose value is exactly num / 2^k for a fresh integer num in [lo, hi] (|num| <= 2^53)"""
+        from .values import SymFloat
+        num = self.fresh_int(name, lo if lo is not None else -(2 ** 52), hi if hi is not None else 2 ** 52)
+        return SymFloat(dy=(num.z, k))
+
     def fresh_str(self, name, length, lo=0, hi=0x10FFFF, alphabet=None):
         """A string of concrete length whose characters are arbitrary code points in [lo, hi]
         (or in `alphabet`, a list of (lo, hi) ranges)."""
